@@ -10,7 +10,7 @@
    byte-exact generator correspondence and judged on the reference machine. *)
 From Coq Require Import ZArith List String Bool.
 From Gigue Require Import Types Bits Isa Enc GenTables Builder BuilderTies Samplers Generator Machine MachineLemmas
-  SplitProofs FragProofs GenLemmas ImageSem CtorSpec C12Defs C12Proofs GenWF GenWFProps SliceLemmas FloatSign GenWF2 BodyExec BodyBridge GenWF5 FrameExec CodeMem SwitchExec GenWF6 Witness.
+  SplitProofs FragProofs GenLemmas ImageSem CtorSpec C12Defs C12Proofs GenWF GenWFProps SliceLemmas FloatSign GenWF2 BodyExec BodyBridge GenWF5 FrameExec CodeMem SwitchExec GenWF6 CallFrame FixerTamper Witness.
 Import ListNotations.
 Open Scope Z_scope.
 
@@ -90,10 +90,60 @@ Theorem C11_leaf_methods_checked_partial : forall c script img,
     (im_methods img).
 Proof. exact fixer_leaf_methods_run. Qed.
 
+(* PROVED (Layer B, machine level, every state): TAMPERING IS TRAPPED at the checked
+   return of a call-making method.  The regenerated epilogue of FIXER call-making
+   methods decodes to
+       ld s0,0(sp) ; ld ra,8(sp) ; addi sp,sp,32 ; cfiret t3 ; beq ra,t3,+8 ; ecall ; ret
+   (first theorem, by computation on the regenerated fragment and the builder).
+   Executed on the reference machine from ANY state whose frame lies in the stack
+   region and whose CFI stack holds the tag `top` of this activation: if the
+   saved-ra slot holds a value `forged <> top` - whatever wrote it, whenever -
+   the outcome is `Trap` at the ecall (pc = A + 20): the `ret` is not executed,
+   so there is NO control transfer to the forged address; the tag is consumed.
+   If the slot still holds `top`, the check passes, the ecall is skipped and the
+   `ret` goes to `top`.
+   `_partial`: stated for one return; that every activation's tag is on top of
+   the CFI stack when its epilogue starts is the whole-run invariant (LIFO
+   matching of cficall / cfiret along the call DAG), proved only for leaf methods
+   (C11_leaf_methods_checked_partial) and judged on every image otherwise. *)
+Theorem C11_checked_epilogue_is_regenerated_partial :
+  exists epi, build_epilogue BFixer m_used_s_regs m_local_vars_nb true = OK epi /\
+              decode_all ExtFixer epi = Some fixer_epi_call /\
+              map fst f_fixer_epi_call = epi.
+Proof. exact fixer_epi_call_eq. Qed.
+
+Theorem C11_forged_return_trapped_partial : forall L,
+  (code_hi L <= stk_lo L \/ stk_hi L <= code_lo L) ->
+  forall s A S s0e forged top rest,
+  pc s = A -> rget s 2 = S - 32 ->
+  S mod 8 = 0 -> 32 <= S < W64 -> stk_lo L <= S - 32 -> S <= stk_hi L ->
+  load_bytes (mem s) (S - 32) 8 = s0e -> load_bytes (mem s) (S - 24) 8 = forged ->
+  0 <= s0e < W64 -> 0 <= forged < W64 -> cfi s = top :: rest -> 0 <= top < W64 ->
+  0 <= A -> A + 28 < W64 ->
+  forged <> top ->
+  exists s', exec_at VFixer L A fixer_epi_call s = Trap s' /\ pc s' = A + 20 /\ cfi s' = rest.
+Proof. exact fixer_forged_return_traps. Qed.
+
+Theorem C11_checked_return_passes_partial : forall L,
+  (code_hi L <= stk_lo L \/ stk_hi L <= code_lo L) ->
+  forall s A S s0e top rest,
+  pc s = A -> rget s 2 = S - 32 ->
+  S mod 8 = 0 -> 32 <= S < W64 -> stk_lo L <= S - 32 -> S <= stk_hi L ->
+  load_bytes (mem s) (S - 32) 8 = s0e -> load_bytes (mem s) (S - 24) 8 = top ->
+  0 <= s0e < W64 -> cfi s = top :: rest -> 0 <= top < W64 ->
+  0 <= A -> A + 28 < W64 ->
+  exists s', exec_at VFixer L A (firstn 5 fixer_epi_call) s = Next s' /\ pc s' = A + 24 /\
+    exec VFixer L s' (Jalr 0 1 0) = Next (set_pc s' ((u64 (top + 0) / 2) * 2)) /\
+    cfi s' = rest /\ rget s' 2 = S /\ rget s' 8 = s0e /\ rget s' 1 = top.
+Proof. exact fixer_checked_return_passes. Qed.
+
 Theorem C11_nonvacuous : exists img, successful wcfg_fixer wscript_fixer img.
 Proof. exact witness_fixer. Qed.
 
 Print Assumptions C11_leaf_methods_checked_partial.
+Print Assumptions C11_checked_epilogue_is_regenerated_partial.
+Print Assumptions C11_forged_return_trapped_partial.
+Print Assumptions C11_checked_return_passes_partial.
 Print Assumptions C11_nonvacuous.
 Print Assumptions C11_returns_checked_partial.
 Print Assumptions C11_method_call_tagged_partial.
